@@ -1,10 +1,57 @@
 (* Properties/C03.v — OSM XML decoding is faithful; the streaming scan equals whole-document
-   decode.  Only statements; proofs are in Verif.C03.*. *)
+   decode.  Only statements; proofs are in Verif.Codec.* and Verif.C03.*.
+
+   FULL STATEMENTS (targets):
+     decode_faithful : forall T v doc, wfb gen_schema T v = true ->
+        noise (spec_doc T v) doc ->                 (* extra unknown attributes / clean unknown
+                                                       elements, any attribute order, children
+                                                       shuffled keeping the order within a name,
+                                                       osmChange blocks split and interleaved *)
+        decode gen_schema T doc = Ok v
+     scanner_eq_decode : forall T doc, doc_ok T doc = true ->
+        decode gen_schema T doc = Ok v ->
+        scan_el gen_schema doc = (objects of doc in document order, None) and every per-kind /
+        per-block list of v is the sub-sequence of that scan with that block and kind.
+   PARTIAL: proved for all structs, values, positions and fuels are the two facts the first
+   statement rests on besides the C04 round trip — the struct decoder is field-wise (so attribute
+   order and the interleaving of differently named children are irrelevant) and an unknown
+   attribute is ignored wherever it stands.  The scanner statement is only instantiated on
+   examples; both statements are evaluated inside Coq on every generated document by Check.v. *)
 From Coq Require Import List String Bool ZArith.
-From Verif Require Import Codec.Schema Codec.Value Codec.Xml Codec.Scan C03.Spec C03.Proofs.
+From Verif Require Import Codec.Schema Codec.Value Codec.Xml Codec.Scan Codec.ProofsAttr Codec.ProofsKids
+     Codec.ProofsRT C03.Spec C03.Proofs.
 From VerifGen Require Import GenSchema.
 Import ListNotations.
 Open Scope string_scope.
+Open Scope list_scope.
+
+(* independence of unknown attributes: an attribute that names no attr field of the struct can
+   be inserted anywhere in the start element *)
+Theorem unknown_attr_ignored_partial : forall sch a1 fs vs an a a2,
+  List.length fs = List.length vs ->
+  (forall f, In f fs -> attr_hit sch f an = false) ->
+  unmarshal_attrs sch fs vs (a1 ++ (an, a) :: a2) = unmarshal_attrs sch fs vs (a1 ++ a2).
+Proof. exact unknown_attr_ignored_gen. Qed.
+Print Assumptions unknown_attr_ignored_partial.
+
+(* independence of attribute order and of the interleaving of children with different names:
+   the decoder's loops compute a per-field fold (distinct element names, no a>b path) *)
+Theorem decoder_is_fieldwise_partial : forall sch unm d bs e st1 st2,
+  all_supported (struct_fields d) = true ->
+  (String.eqb (xmlname_tag d) "" || String.eqb (xmlname_tag d) (xname e)) = true ->
+  no_parents (struct_fields d) = true ->
+  nodup_strb (elem_names sch (struct_fields d)) = true ->
+  Forall3 (fun f b r => absorb_attrs sch f b (xattrs e) = Ok r) (struct_fields d) bs st1 ->
+  Forall3 (fun f b r => absorb_kids sch unm f b (xkids e) = Ok r) (struct_fields d) st1 st2 ->
+  unmarshal_struct sch unm d (VStruct bs) e = Ok (VStruct st2).
+Proof. exact unmarshal_struct_fieldwise. Qed.
+Print Assumptions decoder_is_fieldwise_partial.
+
+(* a field only sees its own children: elements with other names can be interleaved freely *)
+Theorem field_skips_foreign_children_partial : forall sch unm f kids x,
+  (forall c, In c kids -> key_hit sch f (xname c) = false) -> absorb_kids sch unm f x kids = Ok x.
+Proof. exact absorb_kids_skip. Qed.
+Print Assumptions field_skips_foreign_children_partial.
 
 (* Boundary of the domain: an unknown element wrapping a known object element is stepped into
    by the token-level scanner but skipped as a whole by the document decoder, so the two
@@ -15,3 +62,15 @@ Theorem scanner_descends_unknown_example :
               decode gen_schema "OSM" doc = Ok (zero gen_schema FUEL (TNamed "OSM")).
 Proof. exact scanner_descends_unknown. Qed.
 Print Assumptions scanner_descends_unknown_example.
+
+(* non-vacuity / instance: repeated and interleaved osmChange blocks *)
+Example interleaved_blocks :
+  doc_ok "Change" interleaved_doc = true /\
+  node_ids (fst (scan_el gen_schema interleaved_doc)) = [VInt 1; VInt 2; VInt 3] /\
+  match decode gen_schema "Change" interleaved_doc with
+  | Ok (VStruct [_; _; _; _; _; VPtr (Some (VStruct (_ :: _ :: _ :: _ :: _ :: _ :: VList cn :: _)));
+                 VPtr (Some (VStruct (_ :: _ :: _ :: _ :: _ :: _ :: VList mn :: _))); VPtr None]) =>
+      (List.length cn, List.length mn)
+  | _ => (0%nat, 0%nat)
+  end = (2%nat, 1%nat).
+Proof. exact interleaved_blocks_example. Qed.
